@@ -3,7 +3,7 @@ from fractions import Fraction as Fr
 import numpy as np
 from scipy.optimize import linprog
 import core
-from core import Prop, q, qv, qm, cnat, cerr
+from core import Prop, q, qv, qm, cnat, cerr, cbool
 from p_C04 import kmat_lit, base_vec
 import gen_sys as gs
 import lp_cert
@@ -33,7 +33,7 @@ class C06(Prop):
     assumptions = ["np.linalg.solve is re-derived by Cramer's rule in Q (model) and every kept candidate is re-checked (guard A x == b)",
                    "extent multipliers come from scipy/HiGHS LP duals (untrusted); the in-gamut gate of the code (qhull) is opaque: its outcome is judged by separation certificates",
                    "ends compared at atol=rtol=1e-9 (dyadic inputs), certified extents within 1e-9, spaced solutions within 1e-6"]
-    modelled = "convex.py: _range_of_solutions (subset/pattern enumeration, exact acceptance, running min/max), gate/fallback contract of range_of_solutions; _spaced_solutions only through its results"
+    modelled = "(range model solves by exact Gaussian elimination, Model/Gauss.v; the verdict re-decides full row rank by elimination: has_basis_b) convex.py: _range_of_solutions (subset/pattern enumeration, exact acceptance, running min/max), gate/fallback contract of range_of_solutions; _spaced_solutions only through its results"
 
     def sizes(self, tier):
         return 180 if tier == "quick" else 3000
@@ -165,9 +165,13 @@ class C06(Prop):
         zeros = [[0.0] * m for _ in range(n)]
         ylo = [(v.tolist() if v is not None else [0.0] * m) for v in p["ylo"]] if p["ylo"] else zeros
         yhi = [(v.tolist() if v is not None else [0.0] * m) for v in p["yhi"]] if p["yhi"] else zeros
-        return "(Range.Build_case %s %s %s %s %s %s %s %s %s %s %s %s %s %s %s %s %s %s)" % (
+        # full row rank of the transformed capture matrix, as numpy sees it: only a claim -- the Coq verdict re-decides it exactly by elimination
+        # (has_basis_b) and then `verdict_exact` applies: the returned ends bracket every in-bound solution
+        Apn, _ = gs.K_apply(sys["K"], np.asarray(sys["A"], dtype=float), np.zeros(m))
+        fullrank = bool(np.linalg.matrix_rank(np.asarray(Apn, dtype=float)) == m)
+        return "(Range.Build_case %s %s %s %s %s %s %s %s %s %s %s %s %s %s %s %s %s %s %s)" % (
             qm(sys["A"].tolist()), cnat(n), qv(sys["lb"].tolist()), qv(sys["ub"].tolist()), kmat_lit(sys["K"], m),
-            qv(base_vec(sys["baseline"], m).tolist()), qv(case["b"]), impl, qm(out.get("Xs", [])),
+            qv(base_vec(sys["baseline"], m).tolist()), qv(case["b"]), impl, cbool(fullrank), qm(out.get("Xs", [])),
             qm(ylo), qm(yhi), cnat(p["expect"]), qv(p["sep"].tolist()), q(p["mu"]), qv(p["x0"]), q(p["s"]), q(1e-9), q(1e-6))
 
     def spec_violation(self, case, out):
@@ -221,7 +225,14 @@ class C06(Prop):
 
     def extra_coverage(self, ctx):
         acc = [o.get("accepted", 0) for o in ctx["outs"] if "accepted" in o]
-        return {"accepted_basic_solutions_total": int(sum(acc)), "candidate_basic_solutions_total": int(sum(o.get("candidates", 0) for o in ctx["outs"]))}
+        fr = 0
+        for c in ctx["cases"]:
+            p_ = self.prep(c); sy = p_["sys"]
+            if p_["expect"] == 0:
+                Apn, _ = gs.K_apply(sy["K"], np.asarray(sy["A"], dtype=float), np.zeros(sy["m"]))
+                fr += int(np.linalg.matrix_rank(np.asarray(Apn, dtype=float)) == sy["m"])
+        return {"accepted_basic_solutions_total": int(sum(acc)), "candidate_basic_solutions_total": int(sum(o.get("candidates", 0) for o in ctx["outs"])),
+                "in_gamut_cases_with_full_rank_decided_in_coq (verdict_gives_exact_range applies)": fr}
 
     def plant(self, cases, outs):
         k = next(i for i, (c, o) in enumerate(zip(cases, outs)) if "Xmin" in o and self.prep(c)["expect"] == 0)
